@@ -3,7 +3,7 @@
    changes (a stripping line removed from public(), a new cached attribute, a new dictionary entry, a column
    no longer encrypted, a new write to a DbKey row ...) the corresponding lemma stops checking. *)
 From Coq Require Import List String Ascii Bool Arith.
-From Verif Require Import Model.PublicView Gen.GenFields.
+From Verif Require Import Model.PublicView Model.PublicViewPaths Gen.GenFields.
 Import ListNotations.
 Open Scope string_scope.
 
@@ -128,3 +128,15 @@ Lemma interpreted_forwards_glue :
   find_forward GenFields.call_forwards "HDKey.public_master_multisig" "self.public_master" = Some (snd (snd fw_pmm)) /\
   find_forward GenFields.call_forwards "HDKey.wif_public" "self.wif" = Some (snd (snd fw_wif_public)).
 Proof. split; vm_compute; reflexivity. Qed.
+
+(* ---- public views requested by a PATH, and the text of database rows ----
+   the body and the argument list of HDKey.subkey_for_path are the frozen ones read by Model/PublicViewPaths.v (an early
+   return, a changed start-of-path rule or a new parameter stops this lemma) *)
+Lemma subkey_for_path_glue :
+  GenFields.hdkey_subkey_for_path_paths = PublicViewPaths.hdkey_subkey_for_path_paths /\
+  GenFields.path_entry_params = PublicViewPaths.path_entry_params.
+Proof. split; reflexivity. Qed.
+(* EVERY class of db.py with the source of each of its presentation methods (__repr__, __str__, ...): a new __repr__
+   on a row class, or a changed one, stops this lemma until Model/PublicViewPaths.row_prints has been reviewed *)
+Lemma db_presentation_glue : GenFields.db_presentation_methods = PublicViewPaths.db_presentation_methods.
+Proof. reflexivity. Qed.
